@@ -4,7 +4,7 @@ cd "$(dirname "$0")/.."
 seeds="${1:-1 2 3 4 5}"
 for s in $seeds; do
   for i in $(seq -w 1 20); do
-    out=$(VERIF_SEED=$s ./check C$i 2>&1 | grep -v '^KNOWN-FINDING' | tail -1)
+    out=$(VERIF_SEED=$s ./check C$i 2>/dev/null | grep -E '^(OK|VIOLATION)' | tail -1)
     case "$out" in OK*) echo "seed=$s C$i ok ${out##*wall=}";; *) echo "seed=$s C$i FAIL: $out";; esac
   done
 done
